@@ -245,9 +245,15 @@ def strictly(items, up):
     return all((a < b) if up else (b < a) for a, b in zip(items, items[1:]))
 
 
-def oracle_history(ops, states):
-    """returns (problem or None, multi_document_involved)"""
+def oracle_history(ops, states, comparable=None):
+    """returns (problem or None, multi_document_involved).  [comparable], if given, receives one boolean per
+    operation: the state after it is determined by the specification (target list was duplicate-free and in
+    document order, the source list flagged honestly, nothing derived from an undetermined state); only those
+    states are compared between model and library - on garbage input harmless rewrites may legitimately differ"""
     regs = [("U", []), ("U", []), ("U", [])]
+    taint = [False, False, False]
+    if comparable is None:
+        comparable = []
     if len(states) != len(ops):
         return "the driver printed %d states for %d operations: %r" % (len(states), len(ops), states[-1:]), False
     for k, (op, st) in enumerate(zip(ops, states)):
@@ -276,6 +282,9 @@ def oracle_history(ops, states):
             left = [x for i, x in enumerate(items) if i not in ps]
             exact = (flag if left else "U", left)
         if exact is not None:
+            if c == "c":
+                taint[r] = False
+            comparable.append(not taint[r])
             if (gflag, gitems) != exact:
                 return where + "state %s, expected %s:%s" % (st, exact[0], ",".join("%d.%d" % p for p in exact[1])), False
             regs[r] = exact
@@ -290,6 +299,11 @@ def oracle_history(ops, states):
             honest = sflag == "U" or (sflag == "D" and ok_list(sitems) is None and strictly(sitems, True)) or \
                 (sflag == "R" and ok_list(sitems[::-1]) is None and strictly(sitems, False))
             specified = ok_list(items) is None and (honest or c == "b")
+            if taint[int(arg)]:
+                taint[r] = True
+        if not specified:
+            taint[r] = True
+        comparable.append(not taint[r])
         multi = len(set(d for d, _ in items + new)) > 1
         if gflag != flag:
             return where + "order flag changed from %s to %s" % (flag, gflag), multi
@@ -419,9 +433,10 @@ F7_REPLAY = "f7|L|n:0(1(0()0()0()0()0()0())):(a (b ) (b ) (b ) (b ) (b ) (b ) )|
 
 def evaluate(ctx, cases, impl, model):
     lines = [c["line"] for c in cases]
-    rc_i, res_i, raw_i = core.run_lines_parallel(impl, lines)
+    tmo = 900 if ctx.thorough else 180
+    rc_i, res_i, raw_i = core.run_lines_parallel(impl, lines, timeout=tmo)
     both = [c["line"] for c in cases if c["mode"] != "X"]
-    rc_m, res_m, raw_m = core.run_lines_parallel(model, both) if model else (0, {}, "")
+    rc_m, res_m, raw_m = core.run_lines_parallel(model, both, timeout=tmo) if model else (0, {}, "")
     corr, orc = [], []
     if rc_i != 0:
         orc.append({"case": "(process)", "what": "implementation driver exited with status %d: %s" % (rc_i, raw_i[-300:]), "known": None, "cls": "process"})
@@ -437,7 +452,7 @@ def evaluate(ctx, cases, impl, model):
         if ri.startswith("shape") or ri.startswith("exception"):
             orc.append({"case": c["line"], "what": "driver could not build the case: " + ri[:200], "known": None, "cls": c["cls"]})
             continue
-        if c["mode"] != "X" and model:
+        if c["mode"] == "P" and model:
             rm = res_m.get(c["id"])
             ctx.cov["traces_validated_against_impl"] += 1
             if rm != ri:
@@ -445,7 +460,20 @@ def evaluate(ctx, cases, impl, model):
         if c["mode"] == "L":
             states = ri.split(";") if ri else []
             ctx.cov["evaluations"] += len(states)
-            msg, multi = oracle_history(c["ops"], states)
+            comparable = []
+            msg, multi = oracle_history(c["ops"], states, comparable)
+            if model:
+                rm = res_m.get(c["id"])
+                mstates = rm.split(";") if rm else []
+                ctx.cov["traces_validated_against_impl"] += 1
+                ctx.cov["states_compared"] = ctx.cov.get("states_compared", 0) + sum(1 for x in comparable if x)
+                if len(mstates) != len(states):
+                    corr.append({"case": c["line"], "impl": ri[:400], "model": (rm or "")[:400]})
+                else:
+                    for k, okc in enumerate(comparable):
+                        if okc and mstates[k] != states[k]:
+                            corr.append({"case": c["line"], "op": "%d (%s)" % (k, c["ops"][k]), "impl": states[k][:300], "model": mstates[k][:300]})
+                            break
             if ri not in seen:
                 seen.add(ri)
             if msg:
